@@ -119,6 +119,13 @@ def body(i: int, c0: int, c1: int, c2: int, x: int, y: int, p: bool, twin: bool 
     except sem.Undef:
         vi = None
         in_def = False
+    # second admissible reading of enumerated sets under len/sum/prod (deduplicated): a difference must exist under both
+    heap2 = sem.DictHeap({'x': x, 'y': y, 'p': p}, aliases={'A': {'x': y}})
+    heap2.reading = 'set'
+    try:
+        vi2 = sem.pyeval(ast, heap2)
+    except sem.Undef:
+        vi2 = vi
     try:
         out = simplify(ast)
     except Exception as e:  # never BaseException: CrossHair steers with those
@@ -136,6 +143,12 @@ def body(i: int, c0: int, c1: int, c2: int, x: int, y: int, p: bool, twin: bool 
     except sem.Undef as u:
         return ('undefined-output', name, str(out), str(u))
     if not sem.value_equal(vi, vo):
+        try:
+            vo2 = sem.pyeval(out, heap2)
+        except sem.Undef:
+            vo2 = None
+        if vo2 is not None and sem.value_equal(vi2, vo2):
+            return None  # equal under the deduplicated reading of a set literal with coinciding elements: not claimed
         return ('different', name, str(out), repr(vi), repr(vo))
     if out.data_type != ast.data_type:
         return ('type-changed', name, str(out))
